@@ -129,15 +129,21 @@ inline void explore(vh::Run& R, const std::string& cfg, const std::function<std:
 		}
 		else { fflush(stderr); _exit(6); }	// the default schedule fails: fork mode from the start
 	}
-	std::function<void(const std::vector<int>&, int)> rec = [&](const std::vector<int>& prefix, int depth) {
+	// Sharding: the subtrees below the second level of deviations are dealt round-robin (dealing the first level only left
+	// one shard with a quarter of the work).  Every shard runs the default execution and all executions with one deviation
+	// (a few hundred), but an execution is judged and counted only by the shard that owns it.
+	long long branch1 = 0;
+	std::function<void(const std::vector<int>&, int, bool)> rec = [&](const std::vector<int>& prefix, int depth, bool owned) {
 		if (R.out_of_time() || (max_execs && S.execs >= max_execs)) { S.capped = true; return; }
 		const std::string id = cfg + ";" + choices_str(prefix);
-		R.begin_case(id, "", S.execs);
+		R.begin_case(id, "", S.execs); if (!owned) --R.evaluations;
 		Exec x = (inproc && S.execs < forkfrom) ? run_once_inproc(body, prefix) : run_once(body, prefix);
 		++S.execs; S.maxpts = std::max<long long>(S.maxpts, x.pts.size());
-		if (x.preemptions() > 0) ++R.nontrivial;
-		++R.transitions;
-		judge(x, id);
+		if (owned) {
+			if (x.preemptions() > 0) ++R.nontrivial;
+			++R.transitions;
+			judge(x, id);
+		}
 		if (x.end == "DIVERGE") { fprintf(stderr, "NONDETERMINISM: schedule prefix %s diverged on replay\n", id.c_str()); exit(2); }
 		std::vector<int> ch = x.choices();
 		int cost = 0; std::vector<int> costs;
@@ -147,15 +153,17 @@ inline void explore(vh::Run& R, const std::string& cfg, const std::function<std:
 			for (int alt = 1; alt < p.n; ++alt) {
 				int c = costs[i] + (p.running_first ? 1 : 0);
 				if (c > bound) continue;
-				if (depth == 0) { if ((branch++ % R.shard_n) != R.shard_k) continue; }
+				bool child_owned = true;
+				if (depth == 0) child_owned = (branch++ % R.shard_n) == R.shard_k;
+				else if (depth == 1) { ++branch1; if ((vh::fnv(std::to_string(i) + ":" + std::to_string(alt) + ":" + choices_str(prefix)) >> 7) % R.shard_n != R.shard_k) continue; }
 				if (prune_by_hash && p.has_hash) { uint64_t k = p.hash * 1099511628211ULL + alt * 0x9e3779b97f4a7c15ULL + (uint64_t)c * 0x632be59bd9b4e019ULL; if (!seen.insert(k).second) { ++S.pruned; continue; } }
 				std::vector<int> np(ch.begin(), ch.begin() + i); np.push_back(alt);
-				rec(np, depth + 1);
+				rec(np, depth + 1, child_owned);
 				if (S.capped) return;
 			}
 		}
 	};
-	rec(std::vector<int>(), 0);
+	rec(std::vector<int>(), 0, R.shard_k == 0);
 	if (!S.capped) S.bound_completed = bound;
 }
 
